@@ -859,7 +859,7 @@ func checkC14(r *Run) error {
 						r.Report(v)
 						break
 					}
-					if a.TraceDigest != b.TraceDigest {
+					if a.TraceDigest != b.TraceDigest && !r.Env.SpawnsGoroutines() {
 						return machinery("determinism self-check: trace digests differ for an identical plan (harness bug)")
 					}
 				}
